@@ -245,6 +245,10 @@ def rows():
         obj = getattr(L, n, None)
         if obj is None:
             continue
+        # the definition is a type expression (a class, a typing construct, a ForwardRef), not a bare string constant:
+        # `Alias | None`, get_type_hints and introspection work on the former only
+        a[(n, "", "alias_is_type_expression")] = True
+        b[(n, "", "alias_is_type_expression")] = not isinstance(obj, (str, bytes, int, float, bool))
         try:
             want = expected_annotation(al["type"])
             got = _resolve_refs(obj, L)
